@@ -504,6 +504,8 @@ def instances(tier):
     out.append(stack_instance('wmwf', 2, 2, (2,)))
     out.append(stack_instance('wmwf-fd', 2, 2, (2,)))
     out.append(stack_instance('souden', 2, 2, (2,)))
+    out.append(phase_instance((), 1, 2))            # a single bin: nothing to align, the vector comes back unchanged
+    out.append(phase_instance((2,), 1, 1))
     out.append(phase_instance((), 2, 1))
     out.append(phase_instance((), 3, 1))
     out.append(phase_instance((2,), 3, 1))
